@@ -107,6 +107,29 @@ def jtLine (args : List String) : Option String :=
       some s!"ok {" ".intercalate offs} top={j.top - obj} left={j.capacityLeft} release={j.releaseSize objSize}"
   | _ => none
 
+/-- C11: a history of `joint_allocator::allocate_node` / `deallocate_node` calls (`a:<size>:<align>`, `d:<index>`) -/
+def jhLine (args : List String) : Option String :=
+  match args with
+  | o :: e :: ops =>
+    let obj := 65536
+    let objSize := nat! o
+    let j0 := Joint.create obj objSize (nat! e)
+    let step (acc : Joint × List (Nat × Nat) × List String) (t : String) : Joint × List (Nat × Nat) × List String :=
+      let (j, recs, outs) := acc
+      match t.splitOn ":" with
+      | ["a", s, a] =>
+        match j.allocate (nat! s) (nat! a) with
+        | (j', .ok p) => (j', recs ++ [(p, nat! s)], outs ++ [toString (p - obj)])
+        | (j', _) => (j', recs ++ [(0, nat! s)], outs ++ ["oofm"])
+      | ["d", k] =>
+        match recs[nat! k]? with
+        | some (p, s) => (j.deallocate p s, recs, outs ++ ["-"])
+        | none => (j, recs, outs ++ ["bad-index"])
+      | _ => (j, recs, outs ++ ["bad-op"])
+    let (j, _, outs) := ops.foldl step (j0, [], [])
+    some s!"ok {" ".intercalate outs} top={j.top - obj} left={j.capacityLeft}"
+  | _ => none
+
 /-- prefix form of a composition: `L <i> <a|n>` | `fb x y` | `al <m> x` | `tr x` | `sg <max> x y` | `st x` | `any x` -/
 def parseExpr : Nat → List String → Option (AExpr × List String)
   | 0, _ => none
@@ -241,6 +264,10 @@ def step (ds : DState) (line : String) : DState × String :=
         | none => (ds, s!"bad-op {line}")
       else if subj = "jt" then
         match jtLine rest with
+        | some r => (ds, mkLine (secs.getD 0 "") "" r "" "-")
+        | none => (ds, s!"bad-op {line}")
+      else if subj = "jh" then
+        match jhLine rest with
         | some r => (ds, mkLine (secs.getD 0 "") "" r "" "-")
         | none => (ds, s!"bad-op {line}")
       else if subj = "ll" then
